@@ -121,7 +121,7 @@ static mut STUB_USED: bool = false;
 macro_rules! segwit_feed {
     ($name:ident, $n:expr, $total:expr, $unw:literal) => {
         #[kani::proof]
-        #[kani::unwind($unw)] // core::str::from_utf8 advances by a pointer-alignment dependent amount: CBMC needs a bound
+        #[kani::unwind($unw)]
         #[kani::stub(super::check_characters, check_characters_contract)]
         fn $name() {
             const N: usize = $n;           // data characters: version + payload + checksum
@@ -131,7 +131,11 @@ macro_rules! segwit_feed {
             text[0] = b'e'; text[1] = b'l'; text[2] = b'1';
             let mut i = 0;
             while i < N { text[3 + i] = chars[i]; i += 1; } // no '1' among them: index 2 is the last '1'
-            let s: &str = match core::str::from_utf8(&text) { Ok(s) => s, Err(_) => { assert!(false); return; } };
+            // `text` is "el1" + bech32-alphabet characters: ASCII by construction (checked), hence valid UTF-8.
+            // core::str::from_utf8 on 16+ symbolic bytes costs CBMC > 7 min in run_utf8_validation alone.
+            let mut i = 0;
+            while i < T { assert!(text[i] < 128); i += 1; }
+            let s: &str = unsafe { core::str::from_utf8_unchecked(&text) };
             let want = ref_polymod::<2, N>(b"el", &vals);
             let version = vals[0];
             let target = if version == 0 { BLECH32_CONST } else { BLECH32M_CONST };
@@ -162,8 +166,8 @@ macro_rules! segwit_feed {
                 }
             }
             kani::cover!(unsafe { STUB_USED });
-            kani::cover!(N < 17 || (accepted && version == 1));
-            kani::cover!(N < 17 || (accepted && version == 16));
+            kani::cover!(N < 69 || (accepted && version == 1));   // shortest acceptable blinded string: v + 56 chars (35 bytes) + 12
+            kani::cover!(N < 69 || (accepted && version == 16));
             kani::cover!(!accepted && !cksum_err && version == 0);  // blech32 residue on a v0 string, rejected for length
             kani::cover!(!accepted && !cksum_err && version == 5);  // blech32m residue on a v5 string
             kani::cover!(cksum_err && version == 0 && want == BLECH32M_CONST); // wrong variant for the version
@@ -174,9 +178,9 @@ macro_rules! segwit_feed {
 //@ harness: segwit_feed_l13 class=B tier=quick bound="string el1 + 13 lower-case data characters (version + 12 checksum), all contents; check_characters by contract" props=C17,C06 timeout=900
 //@ clause: SegwitHrpstring::new: version > 16 => InvalidWitnessVersion; else the error is Checksum(InvalidChecksum) IFF the reference PolyMod over ExpandHRP ++ version char ++ checksum differs from 1 (version 0) resp. 0x455972a3350f7a1 (version 1..16) — the version character is inside the checksummed data and selects the variant
 segwit_feed!(segwit_feed_l13, 13, 16, 19);
-//@ harness: segwit_feed_l17 class=B tier=quick bound="string el1 + 17 lower-case data characters (version, 4 payload, 12 checksum), all contents; check_characters by contract" props=C17,C06 timeout=900
-//@ clause: same with an acceptable payload: Ok => residue over ALL data characters equals the target of the version's variant; version character and 12 checksum characters are stripped only after validation
+//@ harness: segwit_feed_l17 class=B tier=thorough bound="string el1 + 17 lower-case data characters (version, 4 payload, 12 checksum), all contents; check_characters by contract" props=C17,C06 timeout=1200
+//@ clause: same with a 4-character payload (rejected for length after a correct checksum)
 segwit_feed!(segwit_feed_l17, 17, 20, 23);
-//@ harness: segwit_feed_l21 class=B tier=thorough bound="string el1 + 21 lower-case data characters (version, 8 payload, 12 checksum), all contents; check_characters by contract" props=C17,C06 timeout=1800
-//@ clause: same, 8 payload characters (5 bytes)
-segwit_feed!(segwit_feed_l21, 21, 24, 27);
+//@ harness: segwit_feed_l69 class=B tier=thorough bound="string el1 + 69 lower-case data characters (version, 56 payload = 33-byte key + 2-byte program, 12 checksum), all contents; check_characters by contract" props=C17,C06 timeout=3600
+//@ clause: same at the shortest ACCEPTABLE blinded length: Ok => residue over ALL data characters equals the target of the version's variant; version character and 12 checksum characters are stripped only after validation
+segwit_feed!(segwit_feed_l69, 69, 72, 75);
